@@ -262,9 +262,9 @@ class FnCtx:
         """the value of the whole function"""
         want = self.ret
         if want == "optint":
-            if t == "unit": code = "RTuple0"
-            elif t == "none": code = "RNone"
-            elif t == "Z": code = "(RInt %s)" % code
+            if t == "unit": code = "OITuple0"
+            elif t == "none": code = "OINone"
+            elif t == "Z": code = "(OIInt %s)" % code
             else: fail(node, "return value for optint")
         elif isinstance(want, tuple) and want[0] == "opt":
             if t == "none": code = "None"
